@@ -436,3 +436,155 @@ pub fn gen_case(rng: &mut Rng, l: &Lens, profile: Profile, mc: u64, mm: u64, tho
         out.extend(m);
     }
 }
+
+// ------------------------------------------------------------------------------------------------
+// systematic part of the generator: small-scope enumeration of one step in every state, and of
+// every guard at its boundary (so that coverage of the model's arms does not depend on luck)
+// ------------------------------------------------------------------------------------------------
+
+fn preamble(l: &Lens, state: &str, out: &mut Vec<String>) -> (u64, u64) {
+    // returns (channel id in force, next sequence number)
+    match state {
+        "nohel" => (0, 1),
+        "hel" => {
+            out.push("hel valid".to_string());
+            (0, 1)
+        }
+        _ => {
+            out.push("hel valid".to_string());
+            out.push(format!("ch opn 0:1:1 F {} oi ok", l.ov_opn + l.opn));
+            (1, 2)
+        }
+    }
+}
+
+pub fn gen_systematic(l: &Lens, out: &mut Vec<String>) {
+    let tys = ["msg", "opn", "clo"];
+    let rks = ["ge", "cs", "oi", "or", "cl", "junk"];
+    let len_of = |rk: &str| rk_len(l, rk) as u64;
+    let ov = |ty: &str| overhead(l, ty) as u64;
+    // (1) one chunk of every type x flag x malformation in every handshake state, empty and non-empty buffer
+    for state in ["nohel", "hel", "open"] {
+        for ty in tys {
+            for f in ["F", "C", "A"] {
+                for mal in ["ok", "badsize", "badpolicy"] {
+                    for prefill in [false, true] {
+                        out.push(reset_line(0, 0));
+                        let (chan, mut seq) = preamble(l, state, out);
+                        if prefill {
+                            out.push(format!("ch clo {}:{}:9 C {} ge ok", chan, seq, 24 + 10));
+                            seq += 1;
+                        }
+                        let rk = if ty == "opn" { "or" } else if ty == "clo" { "cl" } else { "ge" };
+                        out.push(format!("ch {} {}:{}:9 {} {} {} {}", ty, chan, seq, f, ov(ty) + len_of(rk), rk, mal));
+                    }
+                }
+            }
+        }
+    }
+    // (2) chunk-count limit at its boundary, for every type, before and after the channel is open
+    for mc in [1u64, 2, 4] {
+        for ty in tys {
+            for state in ["hel", "open"] {
+                out.push(reset_line(mc, 0));
+                let (chan, seq) = preamble(l, state, out);
+                for i in 0..mc + 2 {
+                    out.push(format!("ch {} {}:{}:9 C {} ge ok", ty, chan, seq + i, ov(ty) + 5));
+                }
+                // exactly the limit, then final
+                out.push(reset_line(mc, 0));
+                let (chan, seq) = preamble(l, state, out);
+                for i in 0..mc - 1 {
+                    out.push(format!("ch {} {}:{}:9 C {} ge ok", ty, chan, seq + i, ov(ty) + 40));
+                }
+                out.push(format!("ch {} {}:{}:9 F {} ge ok", ty, chan, seq + mc - 1, ov(ty) + 70));
+            }
+        }
+    }
+    // (3) byte limit at its boundary: sums of limit-1, limit, limit+1, far above
+    for ty in tys {
+        for delta in [-2i64, -1, 0, 1, 5000] {
+            for state in ["hel", "open"] {
+                out.push(reset_line(0, 1000));
+                let (chan, seq) = preamble(l, state, out);
+                out.push(format!("ch {} {}:{}:9 C 400 ge ok", ty, chan, seq));
+                out.push(format!("ch {} {}:{}:9 C 400 ge ok", ty, chan, seq + 1));
+                out.push(format!("ch {} {}:{}:9 C {} ge ok", ty, chan, seq + 2, 200 + delta));
+            }
+        }
+    }
+    // (4) final chunk type x request kind, with the body at every decode boundary
+    for ty in tys {
+        for rk in rks {
+            let n = len_of(rk);
+            let mut bodies = vec![0u64, 1, 2, 3, 4, 5];
+            if n > 0 {
+                bodies.extend([n - 2, n - 1, n, n + 1, n + 50]);
+            }
+            for body in bodies {
+                out.push(reset_line(0, 0));
+                let (chan, seq) = preamble(l, "open", out);
+                out.push(format!("ch {} {}:{}:9 F {} {} ok", ty, chan, seq, ov(ty) + body, rk));
+            }
+            // the same request in two chunks of mixed type: the first chunk is not of the final chunk's type
+            for first in tys {
+                out.push(reset_line(0, 0));
+                let (chan, seq) = preamble(l, "open", out);
+                out.push(format!("ch {} {}:{}:9 C {} {} ok", first, chan, seq, ov(first) + 3, rk));
+                out.push(format!("ch {} {}:{}:9 F {} {} ok", ty, chan, seq + 1, ov(ty) + n, rk));
+            }
+        }
+    }
+    // (5) OPN before any channel: issue, renew, issue twice, renew after issue; six CreateSessions
+    for rk in ["oi", "or", "ge"] {
+        out.push(reset_line(0, 0));
+        out.push("hel valid".to_string());
+        out.push(format!("ch opn 0:1:1 F {} {} ok", l.ov_opn as u64 + len_of(rk), rk));
+        out.push(format!("ch opn 1:2:2 F {} oi ok", l.ov_opn as u64 + len_of("oi")));
+        out.push(format!("ch opn 2:3:3 F {} or ok", l.ov_opn as u64 + len_of("or")));
+    }
+    out.push(reset_line(0, 0));
+    let (chan, seq) = preamble(l, "open", out);
+    for i in 0..7 {
+        out.push(format!("ch msg {}:{}:{} F {} cs ok", chan, seq + i, 20 + i, 24 + len_of("cs")));
+    }
+    // (6) sequence / channel / request id checks on a final chunk; frames that are not chunks
+    for (c, s, what) in [(1u64, 2u64, "next"), (1, 5, "gap"), (1, 1, "stale"), (1, 0, "zero"), (2, 2, "chan"), (0, 2, "chan0")] {
+        for ty in tys {
+            out.push(reset_line(0, 0));
+            preamble(l, "open", out);
+            let _ = what;
+            out.push(format!("ch {} {}:{}:9 F {} ge ok", ty, c, s, ov(ty) + len_of("ge")));
+        }
+    }
+    for ty in tys {
+        // second chunk with another request id / a non-consecutive number
+        for (s2, r2) in [(3u64, 8u64), (4, 9), (2, 9)] {
+            out.push(reset_line(0, 0));
+            preamble(l, "open", out);
+            out.push(format!("ch {} 1:2:9 C {} ge ok", ty, ov(ty) + 10));
+            out.push(format!("ch {} 1:{}:{} F {} ge ok", ty, s2, r2, ov(ty) + len_of("ge")));
+        }
+    }
+    for (state, prefill) in [("nohel", false), ("hel", false), ("hel", true), ("open", false), ("open", true)] {
+        for fr in ["hel valid", "hel badurl", "hel smallbuf", "hel proto1", "ack"] {
+            out.push(reset_line(0, 0));
+            let (chan, seq) = preamble(l, state, out);
+            if prefill {
+                out.push(format!("ch opn {}:{}:9 C {} oi ok", chan, seq, l.ov_opn + 10));
+            }
+            out.push(fr.to_string());
+            out.push(format!("ch opn {}:{}:9 F {} oi ok", chan, seq + 1, l.ov_opn as u64 + len_of("oi")));
+        }
+    }
+    // (7) sequence numbers at the u32 boundary through every chunk type
+    for ty in tys {
+        for (last, s) in [(4294967294u64, 4294967295u64), (4294967295, 0), (4294967295, 4294967295), (4294967293, 4294967294)] {
+            out.push(reset_line(0, 0));
+            preamble(l, "open", out);
+            out.push(format!("setlast {}", last));
+            out.push(format!("ch {} 1:{}:9 C {} ge ok", ty, s, ov(ty) + 10));
+            out.push(format!("ch {} 1:{}:9 F {} ge ok", ty, (s + 1).min(u32::MAX as u64), ov(ty) + len_of("ge")));
+        }
+    }
+}
